@@ -1,6 +1,7 @@
 import Litep2pVerif.Proofs.Kad.Store
 import Litep2pVerif.Proofs.Kad.StoreRefine
 import Litep2pVerif.Generated.Consts
+import Litep2pVerif.Proofs.Node.Wiring
 /-!
 # C17 — The DHT record and provider store respects its bounds and freshness rules
 
@@ -264,3 +265,51 @@ open Litep2pVerif.Props.C17 in
 #print axioms record_store_refines_map
 open Litep2pVerif.Props.C17 in
 #print axioms put_then_get
+
+/-! ## Wiring — the memory-store bounds given to `kademlia::ConfigBuilder` (added after seeded C17-e1)
+
+Over the wiring model `Model/Node/Wiring.lean` (`Node.new c` = `Litep2p::new(ConfigBuilder…build())`, `notes` / `tcpHeld` =
+what the constructed protocol objects / the TCP transport hold, `protocolCodec` = `ProtocolSet::protocol_codec`), tied to
+the real code by the `node` area: real nodes built through the public API print what the CONSTRUCTED objects hold and what
+a connection's `ProtocolSet` answers for every main and fallback name; the driver prints the model's; compared exactly. -/
+namespace Litep2pVerif.Props.C17.Wiring
+open Litep2pVerif Litep2pVerif.Node
+
+/-- Kademlia setter calls of the sample: a later call overrides an earlier one; zero bounds. -/
+def sampleSets : List KadSet := [.maxRecords 5, .replication 3, .maxRecords 0, .maxProviderKeys 0, .validationMode false]
+
+/-- A configuration with fallback names, zero store bounds and non-default transport settings (non-vacuity examples). -/
+def sample : Config :=
+  { keepAliveMs := some 600, listen := [1],
+    notif := [{ name := "/n/new", max := 32, handshake := "01", fallback := ["/n/a"], mode := 'a', sync := some 7, async := none,
+                dial := some false }],
+    rr := [{ name := "/r/new", max := 256, timeoutMs := 800, fallback := ["/r/a", "/r/b"], maxInbound := some 3 }],
+    user := [⟨"/u/a", .identity 8⟩],
+    kad := [{ names := ["/k/2", "/k/1"], max := some 2048,
+              sets := sampleSets }],
+    ping := some 1, identify := true, bitswap := true, maxParallelDials := some 0,
+    tcpSets := [.readAhead 3, .parallelDials 7, .writeBuffer 4] }
+
+/-- The `MemoryStore` of every configured Kademlia instance is constructed with exactly the bounds the user's builder calls
+leave (`kadBuild`: defaults, then the setters in call order; `build()` passes them on unchanged), and a bound set last to
+`n` IS `n` — zero included: a store configured to hold no record / no provider key holds none. -/
+theorem store_config_reaches_protocol (c : Config) :
+    (∀ k ∈ c.kad, Note.kad (kadBuild k.sets) ∈ notes (build c)) ∧
+    ∀ (sets : List KadSet) (n : Nat),
+      (kadBuild (sets ++ [.maxRecords n])).store.maxRecords = n ∧
+      (kadBuild (sets ++ [.maxRecordSize n])).store.maxRecordSize = n ∧
+      (kadBuild (sets ++ [.maxProviderKeys n])).store.maxProviderKeys = n ∧
+      (kadBuild (sets ++ [.maxProviderAddresses n])).store.maxProviderAddresses = n ∧
+      (kadBuild (sets ++ [.maxProvidersPerKey n])).store.maxProvidersPerKey = n ∧
+      (kadBuild (sets ++ [.providerRefresh n])).store.providerRefreshMs = n ∧
+      (kadBuild (sets ++ [.providerTtl n])).store.providerTtlMs = n := by
+  refine ⟨fun k hk => notes_kad_mem _ hk, fun sets n => ?_⟩
+  simp only [kadBuild_append, KadSet.apply, and_self]
+
+example : Note.kad (kadBuild sampleSets) ∈ notes (build sample) ∧ (kadBuild sampleSets).store.maxRecords = 0 ∧
+    (kadBuild sampleSets).store.maxProviderKeys = 0 ∧
+    (kadBuild sampleSets).store.maxRecordSize = Consts.NODE_KAD_MAX_RECORD_SIZE := by decide
+
+end Litep2pVerif.Props.C17.Wiring
+
+#print axioms Litep2pVerif.Props.C17.Wiring.store_config_reaches_protocol
